@@ -68,6 +68,21 @@ func genBoolCase(r *Rng, tier string) boolCase {
 	return c
 }
 
+// a share of touching configurations: polygons glued along part of a common lattice line
+func maybeGlue(r *Rng, c *boolCase) {
+	if !r.Chance(0.12) {
+		return
+	}
+	k := []int64{1, 1, 10}[r.Intn(3)]
+	sc := func(ps clip.Paths64) clip.Paths64 {
+		return mapPts(ps, func(p P) P { return P{X: p.X * k, Y: p.Y * k} })
+	}
+	c.Subject = sc(genGlued(r))
+	if c.Clip != nil {
+		c.Clip = sc(genGlued(r))
+	}
+}
+
 func c01Check(o *Oracle, c boolCase) (ok bool, detail string, resp string) {
 	sol, fault := runBool(c)
 	if fault != "" {
@@ -106,10 +121,11 @@ func init() {
 }
 
 func searchC01(ctx *Ctx, n int) Result {
-	col := NewCollector("C01", "search", "random closed subject/clip sets (grid polygons, stars, rectangles, staircases, nested rings, decorated with duplicates/collinear points/spikes) × 4 clip types × 4 fill rules × {BooleanOpPaths64, engine object, wrapper}; non-trivial = the solution is non-empty and the oracle judged ≥ 2 faces; distinct by input hash")
+	col := NewCollector("C01", "search", "random closed subject/clip sets (grid polygons, stars, rectangles, staircases, nested rings, decorated with duplicates/collinear points/spikes; 12 % triangles and quadrilaterals glued along part of a common lattice line) × 4 clip types × 4 fill rules × {BooleanOpPaths64, engine object, wrapper}; non-trivial = the solution is non-empty and the oracle judged ≥ 2 faces; distinct by input hash")
 	parallelFor(ctx, n, true, col, func(o *Oracle, i int) {
 		r := NewRng(ctx.Seed, "c01", i)
 		c := genBoolCase(r, ctx.Tier)
+		maybeGlue(r, &c)
 		ok, detail, resp := c01Check(o, c)
 		sol, _ := runBool(c)
 		col.Eval(fmt.Sprint(c), len(sol) > 0 && statOf(resp, "faces") >= 2, "ct="+ctName(c.CT), "fr="+frName(c.FR), "via="+c.Via,
